@@ -290,6 +290,13 @@ func extractFile(c context.Context, ls *ipld.LinkSystem, n ipld.Node, outputName
 	if outputName == "" {
 		f = os.Stdout
 	} else {
+		// os.Create follows a symbolic link in the last path element; resolvePath
+		// only vouches for the parent directory. A link left there by an earlier
+		// entry of the archive (or already present in the output directory) would
+		// take the write outside the output directory.
+		if fi, err := os.Lstat(outputName); err == nil && fi.Mode()&os.ModeSymlink != 0 {
+			return fmt.Errorf("refusing to write through symlink %s", outputName)
+		}
 		f, err = os.Create(outputName)
 		if err != nil {
 			return err
